@@ -179,24 +179,60 @@ KINDS = ["Buffer", "RWBuffer", "ByteAddressBuffer", "RWByteAddressBuffer", "Buff
 
 def search(ctx):
     """small inputs enumerated for the witness search after a broken obligation: every bindable kind alone and
-    next to a second resource, with and without array / explicit group / static sampler / bindless, used directly,
-    through a helper, or not at all, on every target"""
+    next to a second resource, with and without array / explicit group (in each spelling) / static sampler / bindless,
+    used directly, through a helper, through a default argument, through a global initialiser, or not at all, on
+    every target; plus pipeline shapes (stage order, every stage kind with a thread group size, numthreads
+    spellings, layouts)"""
     out = []
     for tgt in ["dx", "vk", "vkba", "msl"]:
         for kind in KINDS:
             for arr in (["-"] if kind in ("cbuffer", "ConstantBuffer") else ["-", "2"]):
                 for group in ["-", "1"]:
-                    flags = [("0", "0")]
+                    flags = [("0", "0", "")]
                     if kind.startswith("Sampler") and arr == "-":
-                        flags.append(("1", "0"))
+                        flags.append(("1", "0", ""))
+                        flags.append(("1", "0", ":sp5"))
                     if arr != "-" and "Address" not in kind:
-                        flags.append(("0", "1"))
-                    for ss, bl in flags:
-                        res = f"g_a:{kind}:{group}:{arr}:{ss}:{bl}:e;g_b:Texture2D:-:-:0:0:e"
+                        flags.append(("0", "1", ""))
+                    if group == "1":
+                        flags.append(("0", "0", ":gr"))
+                        flags.append(("0", "0", ":go+ri3"))
+                        if not kind.startswith("Sampler"):
+                            flags.append(("0", "0", ":gv+vi2"))
+                    if kind == "cbuffer":
+                        flags.append(("0", "0", ":E"))
+                    for ss, bl, opts in flags:
+                        res = f"g_a:{kind}:{group}:{arr}:{ss}:{bl}:e{opts};g_b:Texture2D:-:-:0:0:e"
                         for helpers, entry in [("", "cs_0:Compute:0,1:::8.4.1"), ("h0:0::", "cs_0:Compute:1:0::8.4.1"),
                                                ("", "cs_0:Compute::::8.4.1")]:
                             for mode, pipes in [("name=P0", "P0:-:0"), ("name=P0", "P0:2:0"), ("nopipeline", "P0:-:0")]:
                                 out.append("\t".join(["C05.meta", tgt, mode, "0", res, helpers, entry, pipes]))
+        # resources reached through default arguments / global initialisers only; shapes of the mention
+        for kind in ["cbuffer", "ConstantBuffer", "ByteAddressBuffer", "Texture2D", "StructuredBuffer"]:
+            res = f"g_a:{kind}:-:-:0:0:e;g_b:Texture2D:-:-:0:0:e"
+            out.append("\t".join(["C05.meta", tgt, "name=P0", "0", res, "h0::::d0", "cs_0:Compute::0::8.4.1", "P0:-:0"]))
+            out.append("\t".join(["C05.meta", tgt, "name=P0", "0;I0:::", res, "", "cs_0:Compute:::8.4.1:i0".replace(":::8", "::::8"), "P0:-:0"]))
+            out.append("\t".join(["C05.meta", tgt, "name=P0", "1;I:0::;I::0:0", res, "h0:0:::r", "cs_0:Compute::::8.4.1:i1", "P0:-:0"]))
+        for sh in "iefgwdstcbvamz":
+            out.append("\t".join(["C05.meta", tgt, "name=P0", "0", "g_a:Texture2D:-:-:0:0:e;g_c:cbuffer:-:-:0:0:e", "",
+                                   f"cs_0:Compute:0{sh},1{sh}:::8.4.1", "P0:-:0"]))
+        # declaration shapes the allocator leaves alone
+        for r in ["g_a:Texture2D:-:2x3:0:0:e", "g_a:struct:-:-:0:0:e", "g_a:Texture2D:-:u:0:0:e", "g_a:Texture2D:-:-:0:0:s",
+                  "g_a:Texture2D:-:-:0:0:e:ns", "float16_t:Texture2D:-:-:0:0:e;float16_t_0:cbuffer:-:-:0:0:e",
+                  "g_b:Texture2D:-:-:0:0:e:ns"]:
+            for uses in ["0", ""]:
+                out.append("\t".join(["C05.meta", tgt, "name=P0", "0", r + ";g_b:Texture2D:-:-:0:0:e", "",
+                                       f"cs_0:Compute:{uses}:::8.4.1", "P0:-:0"]))
+        # pipelines: stage order, every stage kind with a size, numthreads spellings, layouts, name selection
+        ents = "vs_0:Vertex:0:::-;ps_1:Pixel:0:::-;ts_2:Task::::32.1.1;ms_3:Mesh:0:::16.2.1;cs_4:Compute:0:::8.4.1"
+        for g in ["0", "0;L1"]:
+            for pipes in ["P0:-:0,1;P1:-:4", "P0:-:1,0;P1:-:4", "P0:-:4;P1:1:1,0:gs3", "P0:-:3,1;P00:-:4", "P0:-:2,3;P1:-:4"]:
+                for mode in ["all", "name=P0", "name=" + pipes.split(";")[1].split(":")[0]]:
+                    out.append("\t".join(["C05.meta", tgt, mode, g, "g_t:Texture2D:-:-:0:0:e", "", ents, pipes]))
+        for e in ["cs_0:Compute:0:::8.4.1:nt1", "cs_0:Compute:0:::8.4.1:nt2", "cs_0:Compute:0:::8.4.1:nt3", "cs_0:Compute:0:::-",
+                  "cs_0:Compute:0:::70000.0.3", "vs_0:Vertex:0:::4.2.1", "cs_0:Compute:0:::8.4.1:fd", "float16_t:Compute:0:::8.4.1"]:
+            out.append("\t".join(["C05.meta", tgt, "name=P0", "0", "g_t:Texture2D:-:-:0:0:e", "", e, "P0:-:0"]))
+        out.append("\t".join(["C05.meta", tgt, "name=P0", "0", "g_t:Texture2D:-:-:0:0:e", "a:0::;a::0:", "a_0:Compute:0:0,1::8.4.1", "P0:-:0"]))
     return out
 
 
